@@ -30,6 +30,10 @@ func execMount(api interface{}, c *Call) {
 	}
 	defer func() {
 		if r := recover(); r != nil {
+			if rr, ok := r.(RpcRefused); ok {
+				c.St, c.Code, c.PanicV = "ERR", 10099, "rpc layer: "+rr.Msg
+				return
+			}
 			c.St = "PANIC"
 		}
 	}()
@@ -329,12 +333,12 @@ func RunArgSweep(seed int, randomN int, avoid map[string]bool, t *Trace, seg int
 		ok = issue(c)
 	}
 	for _, mp := range []string{"MNULL", "MNT", "UMNT", "UMNTALL", "DUMP", "EXPORT"} {
-		for _, path := range []string{"/", "", strings.Repeat("p", 2000)} {
+		for _, path := range []string{"/", "", strings.Repeat("p", 1024), strings.Repeat("p", 2000)} {
 			c := NewCall(mp)
 			c.Name, c.NLen = path, len(path)
 			c.I = p.i
 			p.i++
-			execMount(s.N, c)
+			execMount(s.API, c) // through the transport when one is in front of the server
 			c.Leaked = []int{}
 			t.Emit(c)
 		}
